@@ -211,6 +211,13 @@ known("F10", ["C04"],
       ["missed_race"], "sc_fence_pair",
       case("C04", "known", "t0: spawn(1); spawn(2) || t1: CellWrite(c=0); fence(sc) || t2: fence(sc); CellRead(c=0)"))
 
+known("F7c", ["C02", "C18"],
+      "a failing compare_exchange is only a load and may read any coherent value, but loom lets every read-modify-write read the "
+      "newest store only: t1: x0.fetch_add(1,rlx); x1.store(1,rlx) || t2: a=x1.load(rlx); x0.compare_exchange(5,6) never yields "
+      "a=1 together with Err(0) (src/rt/atomic.rs match_rmw_to_stores)",
+      ["missing_outcome"], "cas_other_writer",
+      case("C02", "known", JOIN2 + "ld(x0,rlx); ld(x1,rlx) || t1: fadd(x0,1,rlx); st(x1,1,rlx) || t2: ld(x1,rlx); cas(x0,5,6,rlx,rlx)"))
+
 if __name__ == "__main__":
     out = os.path.join(os.path.dirname(os.path.abspath(__file__)), "..", "known_findings.json")
     json.dump({"findings": F}, open(out, "w"), indent=1)
